@@ -4,6 +4,7 @@ import (
 	"context"
 	"encoding/hex"
 	"fmt"
+	"math"
 	"net"
 	"net/http"
 	"os"
@@ -142,6 +143,9 @@ func (s *spyServer) SubscribeSignedVAA(req *spyv1.SubscribeSignedVAARequest, res
 		for _, f := range req.Filters {
 			switch t := f.Filter.(type) {
 			case *spyv1.FilterEntry_EmitterFilter:
+				if t.EmitterFilter.ChainId > math.MaxUint16 {
+					return status.Error(codes.InvalidArgument, fmt.Sprintf("invalid chain id: %d", t.EmitterFilter.ChainId))
+				}
 				addr, err := decodeEmitterAddr(t.EmitterFilter.EmitterAddress)
 				if err != nil {
 					return status.Error(codes.InvalidArgument, fmt.Sprintf("failed to decode emitter address: %v", err))
